@@ -33,6 +33,7 @@ def record(args):
         try:
             inp, r = cases.build(dassh, case, str(d))
             ductobs.tag_walls(r, case)
+            rec.watch_reactor(r)
             with rec:
                 with drive.Recorder(dassh, r, []) as rr:
                     rr.sweep(max_steps=max_steps)
